@@ -179,7 +179,9 @@ def r3(ctx):
     ctx.ob('C17.R3', fn, anchor[0], ok, 'first priority is anchored', 'flag %s tested and its true edge always reaches the anchoring '
            'assignment: %s' % (flag, ok))
     rk = expand(fn.nodes[anchor[0]]['rhs'])
-    ctx.ob('C17.R3', fn, anchor[0], 'g_lastPollOrder' in rk and 'm_pollPriority' in rk and '+' in rk, 'anchor value', rk)
+    aop = [op for nid, d, rhs, op, lhs in fn.assignments() if nid == anchor[0]][0]
+    ctx.ob('C17.R3', fn, anchor[0], 'g_lastPollOrder' in rk and 'm_pollPriority' in rk and '+' in rk and aop in ('=', 'init'),
+           'anchor value', 'm_pollOrder %s %s' % (aop, rk))
     # apart from the first priority, the order is only pulled in: the assignment is taken when the current order lies beyond
     # the very value that is assigned (a weaker test pushes a queued message back on every priority change)
     raw = fn.key(fn.nodes[anchor[0]]['rhs'])
@@ -219,7 +221,52 @@ def r4(ctx):
         raise AnalysisBroken('C17.R4: no write of g_lastPollOrder found')
 
 
+def r5(ctx):
+    ctx.rule('C17.R5', 'a message enters the poll queue exactly when it gets its first priority: in the client and sink sources every '
+             'addPollMessage(false, m) is reached only where m->setPollPriority(...) has just returned true (addPollMessage '
+             'ignores a message without priority, so the order matters), and no result of setPollPriority is discarded - a '
+             'true result always leads to the addPollMessage call', minimum=4)
+    fb = ctx.fb
+    n = 0
+    seen = set()
+    for fn in fb.functions:
+        if not fn.relfile.startswith('src/ebusd/') or not fn.blocks or (fn.name, fn.sig) in seen:
+            continue
+        seen.add((fn.name, fn.sig))
+        adds = [c for c in fn.all('CXXMemberCallExpr') if (fn.nodes[c].get('callee') or '').endswith('MessageMap::addPollMessage')]
+        sets = [c for c in fn.all('CXXMemberCallExpr') if (fn.nodes[c].get('callee') or '').endswith('Message::setPollPriority')]
+        for c in adds:
+            n += 1
+            ctx.touch(fn)
+            m = fn.key(fn.nodes[c]['args'][1])
+            ok = any(k.startswith('%s.setPollPriority(' % m) and p for k, p in ((a[0], a[1]) for a in fn.atoms(c)))
+            ctx.ob('C17.R5', fn, c, ok, 'addPollMessage(%s)' % m, 'reached only after %s.setPollPriority() returned true: %s' % (m, ok))
+        for c in sets:
+            n += 1
+            ctx.touch(fn)
+            par = fn.nodes.get(fn.parent(c), {})
+            if par.get('k') in ('CompoundStmt', 'IfStmt', 'ForStmt', 'WhileStmt', 'CXXForRangeStmt') and par.get('cond') != c:
+                ctx.ob('C17.R5', fn, c, False, 'result of setPollPriority', 'discarded: a first priority does not queue the message')
+                continue
+            m = fn.key(fn.nodes[c]['obj'])
+            mine = set(a for a in adds if fn.key(fn.nodes[a]['args'][1]) == m)
+            edges = fn.edges_with_atom(fn.key(c), True)
+            ok = bool(edges) and bool(mine) and all(not fn.reaches_point(fn.blocks[b].succs[j], (fn.exit, 0), mine) or
+                                                    _loops_back(fn, fn.blocks[b].succs[j], mine) for b, j in edges)
+            ctx.ob('C17.R5', fn, c, ok, 'true result of %s.setPollPriority()' % m, 'leads to addPollMessage on every path: %s' % ok)
+    if n < 4:
+        raise AnalysisBroken('C17.R5: only %d poll queue call sites found' % n)
+
+
+def _loops_back(fn, start, mine):
+    """inside a loop the exit is always reachable through the back edge; what matters is that the add call is executed before
+    the body is left: the first element reached from the true edge is (in) the block of an add call"""
+    blk = fn.blocks[start]
+    return any(fn.pos(a) is not None and fn.pos(a)[0] == start for a in mine)
+
+
 def run(ctx):
+    r5(ctx)
     r1(ctx)
     r2(ctx)
     r3(ctx)
